@@ -6,6 +6,8 @@ const { Rng, chunk } = require('./util')
 const { SETS, NAMES } = require('./cfgset')
 
 const VARIANTS = ['sloppy', 'strict', 'module']
+// file names rotate too: base name, extension and depth must not matter to anything but the map's `sources`
+const FILES = ['/app/src/prog.js', '/app/lib/mod.mjs', '/srv/x/index.cjs', '/a/b/c/d/e/f/deep.js', 'relative.js', '/app/ñ/файл.js', '/app/noext', '/app/src/prog.js']
 
 // returns shard specs (plain JSON)
 function plan (ctx, o) {
@@ -42,7 +44,7 @@ function jobs (spec, ctx) {
       const prog = cat.build(pl, fm, { strict: it.variant === 'strict', module: it.variant === 'module' })
       prog.meta.known = !!it.known
       prog.meta.sigBase = `catalog:${it.p}:${it.f}`
-      out.push({ code: prog.code, meta: prog.meta, config: SETS[it.cfg], cfgKey: it.cfg, cfgName: it.cfg })
+      out.push({ code: prog.code, file: FILES[out.length % FILES.length], meta: prog.meta, config: SETS[it.cfg], cfgKey: it.cfg, cfgName: it.cfg })
     }
   } else if (spec.kind === 'random') {
     const rng = new Rng(ctx.seed, 'random', ctx.id, spec.stream)
@@ -55,7 +57,7 @@ function jobs (spec, ctx) {
       prog.meta.sigBase = 'random'
       prog.meta.stream = spec.stream
       prog.meta.index = i
-      out.push({ code: prog.code, meta: prog.meta, config: SETS[cfgName], cfgKey: cfgName, cfgName })
+      out.push({ code: prog.code, file: FILES[(i + spec.stream) % FILES.length], meta: prog.meta, config: SETS[cfgName], cfgKey: cfgName, cfgName })
     }
   }
   return out
